@@ -6,7 +6,8 @@ choice a serialiser is free to make –
 
 * the order of `<class>` and `<sourcefile>` elements inside a package (the body is one list);
 * the full attribute list of every element, in any order, with any extra attributes
-  (`wf` only asks that the keys are distinct, as XML demands, and that the attributes the format
+  (`wf` only asks that the keys are distinct, as XML demands – and non-empty: the empty key is the
+  model's marker for an attribute SYNTAX error, `Jacoco.isAttrErr` –, and that the attributes the format
   defines are present with a value that denotes the abstract one: `HasAttr`/`HasNum`/`HasRawNum`,
   i.e. any entity escaping of a name, any numeral the number reader accepts);
 * empty-element tags vs start/end tags (`selfClose`), namespace prefixes on element names
@@ -209,7 +210,11 @@ def Report.fits (cap : Nat) (r : Report) : Bool := r.all fun p => p.items.all (I
 
 /-! ## serialisations -/
 
-def nodupKeys (attrs : List Attr) : Bool := decide (attrs.map (·.1)).Nodup
+/-- the attribute list of a well-formed start tag: distinct keys (XML; the parser itself no longer
+checks this since /repo ae885a6, see `C10_repeated_attribute_*`), every key a real key (non-empty:
+no attribute syntax error) -/
+def keysOk (attrs : List Attr) : Bool :=
+  decide (attrs.map (·.1)).Nodup && attrs.all fun a => !isAttrErr a
 
 /-- attribute `k` is present and its value unescapes to `v` -/
 def hasAttr (attrs : List Attr) (k v : Name) : Bool :=
@@ -256,7 +261,7 @@ def SSeg.events : SSeg → List XmlEvent
 
 def SSeg.wf : SSeg → Bool
   | .line l tag attrs _ =>
-    decide (localName tag = sLine) && nodupKeys attrs
+    decide (localName tag = sLine) && keysOk attrs
     && hasRawNum U64MAX attrs sCi l.ci && hasRawNum U64MAX attrs sCb l.cb
     && hasRawNum U64MAX attrs sMb l.mb && hasRawNum U32MAX attrs sNr l.nr
   | .junk e => ignorable [sLine] sSourcefile e
@@ -277,7 +282,7 @@ def XSource.events (s : XSource) : List XmlEvent :=
   elem s.selfClose s.tag s.attrs (s.body.flatMap SSeg.events)
 
 def XSource.wf (s : XSource) : Bool :=
-  decide (localName s.tag = sSourcefile) && nodupKeys s.attrs && hasAttr s.attrs sName s.name
+  decide (localName s.tag = sSourcefile) && keysOk s.attrs && hasAttr s.attrs sName s.name
   && s.body.all SSeg.wf
 
 def XSource.abs (s : XSource) : SourceFile := ⟨s.name, s.body.filterMap SSeg.line?⟩
@@ -299,10 +304,10 @@ def MSeg.events : MSeg → List XmlEvent
 
 def MSeg.wf : MSeg → Bool
   | .counter covered tag attrs _ =>
-    decide (localName tag = sCounter) && nodupKeys attrs && hasAttr attrs sType sMETHOD
+    decide (localName tag = sCounter) && keysOk attrs && hasAttr attrs sType sMETHOD
     && hasNum U32MAX attrs sCovered covered
   | .otherCounter ty tag attrs _ =>
-    decide (localName tag = sCounter) && nodupKeys attrs && hasAttr attrs sType ty
+    decide (localName tag = sCounter) && keysOk attrs && hasAttr attrs sType ty
     && decide (ty ≠ sMETHOD)
   | .junk e => ignorable [sCounter] sMethod e
 
@@ -323,7 +328,7 @@ def XMethod.events (m : XMethod) : List XmlEvent :=
   elem m.selfClose m.tag m.attrs (m.body.flatMap MSeg.events)
 
 def XMethod.wf (m : XMethod) : Bool :=
-  decide (localName m.tag = sMethod) && nodupKeys m.attrs && hasAttr m.attrs sName m.name
+  decide (localName m.tag = sMethod) && keysOk m.attrs && hasAttr m.attrs sName m.name
   && (match m.line with
       | some l => hasNum U32MAX m.attrs sLine l
       | none => hasNoKey m.attrs sLine)
@@ -365,7 +370,7 @@ def XClass.events (c : XClass) : List XmlEvent :=
   elem c.selfClose c.tag c.attrs (c.body.flatMap CSeg.events)
 
 def XClass.wf (c : XClass) : Bool :=
-  decide (localName c.tag = sClass) && nodupKeys c.attrs && hasAttr c.attrs sName c.fq
+  decide (localName c.tag = sClass) && keysOk c.attrs && hasAttr c.attrs sName c.fq
   && (match c.sourcefile with
       | some f => hasAttr c.attrs sSourcefilename f
       | none => hasNoKey c.attrs sSourcefilename)
@@ -408,7 +413,7 @@ def XPackage.events (p : XPackage) : List XmlEvent :=
   elem p.selfClose p.tag p.attrs (p.body.flatMap PSeg.events)
 
 def XPackage.wf (p : XPackage) : Bool :=
-  decide (localName p.tag = sPackage) && nodupKeys p.attrs && hasAttr p.attrs sName p.name
+  decide (localName p.tag = sPackage) && keysOk p.attrs && hasAttr p.attrs sName p.name
   && p.body.all PSeg.wf
 
 def XPackage.abs (p : XPackage) : Package := ⟨p.name, p.body.filterMap PSeg.item?⟩
